@@ -207,10 +207,12 @@ func (w *srvRecWriter) Commit(d ociregistry.Digest) (ociregistry.Descriptor, err
 
 func (b *srvRecBackend) record(method, repo, tag, dig string, more ...string) {
 	c := srvRecCall{method: method, args: append([]string{repo, tag, dig}, more...)}
-	if method != "Repositories" && method != "Commit" && !ociref.IsValidRepository(repo) {
+	// judged by the harness's own reading of the grammar as well as by the library's predicates: a
+	// predicate that has gone soft must not vouch for itself
+	if method != "Repositories" && method != "Commit" && !(ociref.IsValidRepository(repo) && refRepoValid(repo)) {
 		c.bad = "repository " + strconv.Quote(repo)
 	}
-	if tag != "" && !ociref.IsValidTag(tag) {
+	if tag != "" && !(ociref.IsValidTag(tag) && refTagValid(tag)) {
 		c.bad = "tag " + strconv.Quote(tag)
 	}
 	if dig != "" && !ociref.IsValidDigest(dig) {
@@ -308,7 +310,9 @@ func newSrvRecBackend(fail bool) *srvRecBackend {
 				return nil, ociregistry.ErrDenied
 			}
 			b.opened++
-			return &srvRecWriter{b: b, id: "upload-1"}, nil
+			// an upload ID as a proxying backend hands out: a URL with a query, so that its base64 form
+			// uses every character of the alphabet
+			return &srvRecWriter{b: b, id: "https://up.example/v2/u?_state=a~b>c&x=??>>~~"}, nil
 		},
 		PushBlobChunkedResume_: func(ctx context.Context, repo, id string, offset int64, chunkSize int) (ociregistry.BlobWriter, error) {
 			b.record("PushBlobChunkedResume", repo, "", "", id, fmt.Sprint(offset))
